@@ -33,6 +33,7 @@ MODULES = {
     "C18": "props_c18",
     "C20": "props_engine",
     "C19": "props_c19",
+    "BLINES": "props_blines",
 }
 
 
